@@ -35,7 +35,7 @@ Proof. exact AggCanon.key_class. Qed.
 (* ------------------------------------------------------------------ *)
 (* the loop, with ghost members                                        *)
 (* ------------------------------------------------------------------ *)
-Definition gentry := (entry * list Goroutine)%type.
+Notation gentry := (entry * list Goroutine)%type (only parsing).
 Definition new_entry (g : Goroutine) : entry := mkEntry (GSig g) [ID g] (First g).
 Definition upd_entry (e : entry) (key' : Signature) (g : Goroutine) : entry :=
   mkEntry key' (eids e ++ [ID g]) (efirst e || First g).
@@ -54,7 +54,7 @@ Section Loop.
        (key' = ekey e \/ key' = sig_merge (ekey e) (GSig g)) /\
        agg_step shuffle lvl (map fst gst) k g = Ok (map fst (l1 ++ (upd_entry e key' g, m ++ [g]) :: l2))).
   Proof.
-    unfold agg_step. rewrite map_length.
+    unfold agg_step. cbv zeta. rewrite map_length.
     destruct (find (entry_similar lvl (map fst gst) g) (shuffle k (seq 0 (List.length gst)))) as [i|] eqn:EF.
     - right. apply find_some in EF as [_ HS]. unfold entry_similar in HS.
       destruct (nth_error (map fst gst) i) as [e|] eqn:EN; [|discriminate].
@@ -64,7 +64,8 @@ Section Loop.
       assert (EU : forall key', upd_nth i (fun _ => mkEntry key' (eids e ++ [ID g]) (efirst e || First g))
                                   (map fst (l1 ++ (e, m) :: l2)) =
                                 map fst (l1 ++ (upd_entry e key' g, m ++ [g]) :: l2)).
-      { intros key'. rewrite !map_app. cbn [map fst]. rewrite <- EL, <- E1. apply upd_nth_app. }
+      { intros key'. rewrite !map_app. cbn [map fst]. rewrite <- EL, <- E1. unfold upd_entry.
+        exact (upd_nth_app (fun _ => mkEntry key' (eids e ++ [ID g]) (efirst e || First g)) (map fst l1) e (map fst l2)). }
       destruct (sig_equal (ekey e) (GSig g)).
       + exists (ekey e). split; [reflexivity|]. split; [exact HS|]. split; [now left|]. now rewrite EU.
       + exists (sig_merge (ekey e) (GSig g)). split; [reflexivity|]. split; [exact HS|]. split; [now right|].
@@ -119,7 +120,7 @@ Section Loop.
   Definition ent_ok (p : gentry) : Prop :=
     eids (fst p) = map ID (snd p) /\ efirst (fst p) = existsb First (snd p) /\ snd p <> [].
   Definition Inv4 (done : list Goroutine) (gst : list gentry) : Prop :=
-    Forall ent_ok gst /\ Permutation (concat (map snd gst)) done.
+    Forall ent_ok gst /\ Permutation (List.concat (map snd gst)) done.
 
   Lemma Inv4_new done gst g : Inv4 done gst -> Inv4 (done ++ [g]) (gst ++ [(new_entry g, [g])]).
   Proof.
@@ -139,8 +140,8 @@ Section Loop.
       + now rewrite map_app, X1.
       + rewrite existsb_app, X2. cbn. now rewrite orb_false_r.
       + intros E. apply app_eq_nil in E as [_ E]. discriminate.
-    - rewrite map_app, concat_app in *. cbn [map snd concat] in *.
-      transitivity ((concat (map snd l1) ++ m ++ concat (map snd l2)) ++ [g]);
+    - rewrite map_app, concat_app in *. cbn [map snd List.concat] in *.
+      transitivity ((List.concat (map snd l1) ++ m ++ List.concat (map snd l2)) ++ [g]);
         [|apply Permutation_app_tail; exact HP].
       rewrite <- !app_assoc. apply Permutation_app_head. apply Permutation_app_head.
       apply Permutation_app_comm.
@@ -240,7 +241,7 @@ Proof.
 Qed.
 
 Lemma flat_ids gst :
-  Forall ent_ok gst -> Permutation (flat_map IDs (map gb gst)) (map ID (concat (map snd gst))).
+  Forall ent_ok gst -> Permutation (flat_map IDs (map gb gst)) (map ID (List.concat (map snd gst))).
 Proof.
   intros HF. induction HF as [|p l Hp HF IH]; cbn; [constructor|].
   rewrite map_app. apply Permutation_app; [now apply gb_ids | exact IH].
@@ -251,17 +252,17 @@ Lemma existsb_count {A} (f : A -> bool) (m : list A) :
 Proof. induction m as [|x m IH]; cbn; [reflexivity|]. destruct (f x); cbn; [reflexivity | exact IH]. Qed.
 
 Lemma count_zero {A} (f : A -> bool) (ms : list (list A)) :
-  List.length (filter f (concat ms)) = 0 -> List.length (filter (existsb f) ms) = 0.
+  List.length (filter f (List.concat ms)) = 0 -> List.length (filter (existsb f) ms) = 0.
 Proof.
   induction ms as [|m ms IH]; cbn; [reflexivity|].
   rewrite filter_app, app_length, existsb_count. intros H.
   assert (H1 : List.length (filter f m) = 0) by lia.
-  assert (H2 : List.length (filter f (concat ms)) = 0) by lia.
+  assert (H2 : List.length (filter f (List.concat ms)) = 0) by lia.
   rewrite H1. cbn. now apply IH.
 Qed.
 
 Lemma count_one {A} (f : A -> bool) (ms : list (list A)) :
-  List.length (filter f (concat ms)) = 1 -> List.length (filter (existsb f) ms) = 1.
+  List.length (filter f (List.concat ms)) = 1 -> List.length (filter (existsb f) ms) = 1.
 Proof.
   induction ms as [|m ms IH]; cbn; [discriminate|].
   rewrite filter_app, app_length, existsb_count. intros H.
@@ -311,12 +312,12 @@ Section Final.
     destruct H4 as [HF HP].
     transitivity (flat_map IDs (map gb gst)).
     - apply Permutation_flat_map. apply sort_stable_perm.
-    - transitivity (map ID (concat (map snd gst))); [now apply flat_ids | now apply Permutation_map].
+    - transitivity (map ID (List.concat (map snd gst))); [now apply flat_ids | now apply Permutation_map].
   Qed.
 
   Lemma bs_counts : count_first gs = 1 -> count_bfirst (bs_of gst) = 1.
   Proof.
-    unfold count_first, count_bfirst. intros H1.
+    unfold count_first, count_bfirst, bs_of. intros H1.
     rewrite (Permutation_length (Permutation_filter BFirst _ _ (sort_stable_perm bucket_before (map gb gst)))).
     destruct H4 as [HF HP]. rewrite (bfirst_count gst HF). apply count_one.
     now rewrite (Permutation_length (Permutation_filter First _ _ HP)).
